@@ -8,14 +8,14 @@ package strategy
 //@ func bytesToInt
 //@   nopanic
 //@   pure
-//@   ensures le32: len(b) == 4 ==> r0 == uint64(le32(b, 0))
-//@   ensures le64: len(b) == 8 ==> r0 == le64(b, 0)
+//@   ensures value: r0 == keyInt(b)
 
 // MDB_INTEGERKEY order on little-endian hosts: native unsigned integers.
 //@ func cmpIntegerLittleEndian
 //@   nopanic
 //@   pure
 //@   ensures range: r0 == -1 || r0 == 0 || r0 == 1
+//@   ensures by_value: iff(r0 < 0, keyInt(a) < keyInt(b)) && iff(r0 == 0, keyInt(a) == keyInt(b))
 //@   ensures order4: len(a) == 4 && len(b) == 4 ==> iff(r0 < 0, le32(a, 0) < le32(b, 0)) && iff(r0 == 0, le32(a, 0) == le32(b, 0))
 //@   ensures order8: len(a) == 8 && len(b) == 8 ==> iff(r0 < 0, le64(a, 0) < le64(b, 0)) && iff(r0 == 0, le64(a, 0) == le64(b, 0))
 
@@ -43,3 +43,14 @@ package strategy
 //@   trusted
 //@   modifies ghost_dirty, ghost_nput, ghost_ndel
 //@   ensures dirty_only_set: ghost_dirty == old(ghost_dirty) || ghost_dirty == 1
+
+// iterBoth walks the iterator and the LMDB cursor in the DBI's key order.
+// Valid input is never rejected: the "keys not sorted" error is only returned
+// for a key that has a predecessor (the first key delivered by the iterator
+// is always accepted, also in integer-key DBIs).
+//@ func iterBoth
+//@   requires fresh_count: ghost_itCount == 0
+//@   requires key_kind: integerKey ==> ghost_itIntegerKeys == 1
+//@   modifies *
+//@   loop 0 invariant predecessor_was_delivered: hasPrevKey ==> ghost_itCount >= 1
+//@   at_call fmt.Errorf#1 assert rejects_only_with_predecessor: ghost_itCount >= 2
